@@ -1,7 +1,27 @@
+import importlib.util, os
+import vcheck
+
 T = "GeomV.C15."
+
+
+def pregen(check):
+    """T1 tie: regenerate lean/GeomV/C15/Gen.lean (similar, pointSimilar) from the current source"""
+    spec = importlib.util.spec_from_file_location("c15_go2lean", os.path.join(vcheck.HARNESS, "cmd", "c15", "go2lean.py"))
+    mod = importlib.util.module_from_spec(spec); spec.loader.exec_module(mod)
+    out = os.path.join(vcheck.LEAN, "GeomV", "C15", "Gen.lean")
+    try:
+        text = mod.generate(open(os.path.join(vcheck.REPO, "similar.go")).read())
+    except Exception as e:  # Untranslatable or unreadable source: the tie is broken
+        check.broken.append("T1 tie: similar.go is outside the translatable subset: %s" % e)
+        return
+    if not os.path.exists(out) or open(out).read() != text:
+        open(out, "w").write(text)
+
+
 CFG = {
     "id": "C15",
-    "lean_modules": ["GeomV.C15.Proofs"],
+    "lean_modules": ["GeomV.C15.Proofs", "GeomV.C15.Ties"],
+    "pregen": pregen,
     "exe": "geomv_c15",
     "go_cmd": "c15",
     "stages": ["go:gen", "go:impl", "lean:judge"],
@@ -10,11 +30,13 @@ CFG = {
         "C15_perturb", "C15_perturb_members", "C15_perturb_ring", "C15_perturb_points",
         "C15_false_cases", "C15_false_type", "C15_false_count", "C15_false_vertex_count", "C15_false_no_partner",
         "C15_false_displaced_vertex", "C15_false_reversed", "C15_false_displaced_ring_vertex",
-        "C15_false_displaced_member", "C15_ring_index_eq_rotation"]],
+        "C15_false_displaced_member", "C15_ring_index_eq_rotation",
+        "C15_tie_similar", "C15_tie_pointSimilar"]],
     "trusted_base": [
         "Lean 4.33.0 kernel; axioms of every theorem printed by #print axioms must be within {propext, Classical.choice, Quot.sound}",
         "model lean/GeomV/C15/Model.lean is tied to /repo/similar.go by the correspondence run (both argument orders of every generated pair, exact comparison of the boolean answers) on every check",
         "IEEE-754 rounding of a-b is modelled, not verified: the model computes |a-b| < e in exact rationals; generated coordinates/tolerances are dyadic (a-b exact) or keep |a-b| at least 10% away from e",
+        "harness/cmd/c15/go2lean.py (70-line expression translator) for the regenerated definitions of similar/pointSimilar (Gen.lean); exercised by the same correspondence run",
         "harness/cmd/c15 + lean driver + lib/vcheck.py transport inputs faithfully",
     ],
     "assumptions": [
